@@ -88,6 +88,10 @@ def run(item):
         vm = P[0][0]
     else:
         kwargs = {n: pval(p) for n, p in zip(PARAMS[cls_name], P)}
+    if cls_name == "NegativelyComonotoneOperator":
+        # the class has multi-valued members (every monotone operator is one); its constructor offers reuse_gradient,
+        # True by default: the user who wants them declares the operator as multi-valued
+        kwargs["reuse_gradient"] = False
     with contextlib.redirect_stdout(io.StringIO()):       # (the constructors print advice for boundary parameters)
         f = problem.declare_function(cls, **kwargs)
     fid = f.get_name() or "Function_{}".format(f.counter)
